@@ -297,33 +297,29 @@ where
     }
     fn scope(&mut self, event_time: &usize) {
         // long c_sup = (long) Math.ceil(((double) Math.abs(t_e - t0) / (double) slide)) * slide;
-        let _temp = (*event_time as f64 - self.t_0 as f64).abs();
-        let _temp = ((*event_time as f64 - self.t_0 as f64).abs() / (self.slide as f64)).ceil();
-        let c_sup = ((*event_time as f64 - self.t_0 as f64).abs() / (self.slide as f64)).ceil()
-            * self.slide as f64;
-        // long o_i = c_sup - width;
-        let mut o_i = c_sup - self.width as f64;
+        // Pure integer arithmetic: no f64 round trips (exact for epoch-millisecond timestamps).
+        let delta = event_time.abs_diff(self.t_0);
+        let c_sup = delta.div_ceil(self.slide) * self.slide;
+        // Windows open on slide boundaries, so the newest window that can hold the event is
+        // the one opened at the last boundary at or before it; nothing beyond it is needed yet.
+        let c_max = *event_time + self.width;
         debug!(
-            "Calculating the Windows to Open. First one opens at [{:?}] and closes at [{:?}]",
-            o_i, c_sup
+            "Calculating the Windows to Open. First one closes at [{:?}], last one closes at [{:?}]",
+            c_sup, c_max
         );
-        // log.debug("Calculating the Windows to Open. First one opens at [" + o_i + "] and closes at [" + c_sup + "]");
-        //
+        // long o_i = c_sup - width; windows starting before the stream origin are clamped to it
+        let mut close = c_sup;
         loop {
-            debug!(
-                "Computing Window [{:?},{:?}) if absent",
-                o_i,
-                (o_i + self.width as f64)
-            );
             let window = Window {
-                open: o_i as usize,
-                close: (o_i + self.width as f64) as usize,
+                open: close.saturating_sub(self.width),
+                close,
             };
+            debug!("Computing Window [{:?},{:?}) if absent", window.open, window.close);
             if let None = self.active_windows.get(&window) {
                 self.active_windows.insert(window, ContentContainer::new_with_origin(&self.uri));
             }
-            o_i += self.slide as f64;
-            if o_i > *event_time as f64 {
+            close += self.slide;
+            if close > c_max {
                 break;
             }
         }
